@@ -1,4 +1,4 @@
-import GlmVerif.Sem.Guard
+import GlmVerif.Sem.TreeEqv
 import GlmVerif.Spec.Basic
 
 /-!
@@ -178,7 +178,7 @@ theorem treeOK_sound {R : Type} [CommRing R] {o : Ops R} (ho : RingLike o) {leaf
       simp only [Tree.eval, condOK_sound ho h.1.1 env, iht h.1.2, ihf h.2]
     | _ => simp [treeOK] at h
 
-theorem Family.tree_elim (h : f.ok look = true) (htm : f.treeMode = true)
+theorem Family.tree_elim (h : f.ok look = true) (htm : f.treeMode = true) (hw : f.treeWalk = false)
     {ks : List Nat} (hks : ks ∈ f.keys) {j : Nat} (hj : j < f.nOut ks) :
     treeOK (f.leafOK ks j) ((look f.unit ks).out j) (f.specT ks j) = true := by
   simp only [Family.ok, List.all_eq_true] at h
@@ -188,13 +188,43 @@ theorem Family.tree_elim (h : f.ok look = true) (htm : f.treeMode = true)
   replace this := this.2
   rw [if_pos htm] at this
   simp only [Bool.and_eq_true, List.all_eq_true, List.mem_range] at this
-  exact this.2 j hj
+  have hj' := this.2 j hj
+  rw [if_neg (by simp [hw])] at hj'
+  exact hj'
+
+theorem Family.walk_elim (h : f.ok look = true) (htm : f.treeMode = true) (hw : f.treeWalk = true)
+    {ks : List Nat} (hks : ks ∈ f.keys) {j : Nat} (hj : j < f.nOut ks) :
+    treeEqv (implied true) (fun _ a b => f.leafOK ks j a b) [] ((look f.unit ks).out j) (f.specT ks j) = true := by
+  simp only [Family.ok, List.all_eq_true] at h
+  have := h ks hks
+  unfold Family.okAt at this
+  rw [Bool.and_eq_true] at this
+  replace this := this.2
+  rw [if_pos htm] at this
+  simp only [Bool.and_eq_true, List.all_eq_true, List.mem_range] at this
+  have hj' := this.2 j hj
+  rw [if_pos hw] at hj'
+  exact hj'
+
+/-- **walk mode**: the traced tree and a specification tree of another shape agree for every input, in every
+    ordered-field semantics (`poly` leaves) -/
+theorem Family.walk_poly_sound {K : Type} [Field K] [LinearOrder K] [IsStrictOrderedRing K] {o : Ops K}
+    (ho : OrderedEqLike o) (h : f.ok look = true) (htm : f.treeMode = true) (hw : f.treeWalk = true) (hk : f.kind = .poly)
+    {ks : List Nat} (hks : ks ∈ f.keys) {j : Nat} (hj : j < f.nOut ks) (env : Nat → K) :
+    ((look f.unit ks).out j).eval o env = (f.specT ks j).eval o env := by
+  obtain ⟨path, _, hl⟩ := treeEqv_sound (implied_sound ho env true) _ _ (Family.walk_elim h htm hw hks hj)
+    (by intro cb hcb; cases hcb)
+  rw [Tree.eval_eq_select o env ((look f.unit ks).out j), Tree.eval_eq_select o env (f.specT ks j)]
+  simp only [Family.leafOK, hk, Bool.or_eq_true] at hl
+  rcases hl with h1 | h1
+  · rw [eq_of_beq h1]
+  · exact polyEq_sound' ho.toRingLike h1 env
 
 theorem Family.tree_poly_sound {R : Type} [CommRing R] {o : Ops R} (ho : RingLike o)
-    (h : f.ok look = true) (htm : f.treeMode = true) (hk : f.kind = .poly)
+    (h : f.ok look = true) (htm : f.treeMode = true) (hw : f.treeWalk = false) (hk : f.kind = .poly)
     {ks : List Nat} (hks : ks ∈ f.keys) {j : Nat} (hj : j < f.nOut ks) (env : Nat → R) :
     ((look f.unit ks).out j).eval o env = (f.specT ks j).eval o env := by
-  refine treeOK_sound ho env ?_ (Family.tree_elim h htm hks hj)
+  refine treeOK_sound ho env ?_ (Family.tree_elim h htm hw hks hj)
   intro a b hab
   simp only [Family.leafOK, hk, Bool.or_eq_true] at hab
   rcases hab with h1 | h1
@@ -202,32 +232,32 @@ theorem Family.tree_poly_sound {R : Type} [CommRing R] {o : Ops R} (ho : RingLik
   · exact polyEq_sound' ho h1 env
 
 theorem Family.tree_syn_sound {R : Type} [CommRing R] {o : Ops R} (ho : RingLike o)
-    (h : f.ok look = true) (htm : f.treeMode = true) (hk : f.kind = .syn)
+    (h : f.ok look = true) (htm : f.treeMode = true) (hw : f.treeWalk = false) (hk : f.kind = .syn)
     {ks : List Nat} (hks : ks ∈ f.keys) {j : Nat} (hj : j < f.nOut ks) (env : Nat → R) :
     ((look f.unit ks).out j).eval o env = (f.specT ks j).eval o env := by
-  refine treeOK_sound ho env ?_ (Family.tree_elim h htm hks hj)
+  refine treeOK_sound ho env ?_ (Family.tree_elim h htm hw hks hj)
   intro a b hab
   simp only [Family.leafOK, hk] at hab
   rw [eq_of_beq hab]
 
 theorem Family.tree_polyMod_sound {R : Type} [CommRing R] {o : Ops R} (ho : RingLike o)
-    (h : f.ok look = true) (htm : f.treeMode = true) (hk : f.kind = .polyMod)
+    (h : f.ok look = true) (htm : f.treeMode = true) (hw : f.treeWalk = false) (hk : f.kind = .polyMod)
     {ks : List Nat} (hks : ks ∈ f.keys) {j : Nat} (hj : j < f.nOut ks) (env : Nat → R)
     (hh : ∀ p ∈ f.hyps ks, p.1.eval o env = p.2.eval o env)
     (hrw : ∀ p ∈ f.rw ks, p.1.eval o env = p.2.eval o env) :
     ((look f.unit ks).out j).eval o env = (f.specT ks j).eval o env := by
-  refine treeOK_sound ho env ?_ (Family.tree_elim h htm hks hj)
+  refine treeOK_sound ho env ?_ (Family.tree_elim h htm hw hks hj)
   intro a b hab
   simp only [Family.leafOK, hk] at hab
   rw [← E.rewrite_sound o env hrw]
   exact polyEqMod_sound ho hab env hh
 
 theorem Family.tree_frac_sound {K : Type} [Field K] [CharZero K] {o : Ops K} (ho : FieldLike o)
-    (h : f.ok look = true) (htm : f.treeMode = true) (hk : f.kind = .frac)
+    (h : f.ok look = true) (htm : f.treeMode = true) (hw : f.treeWalk = false) (hk : f.kind = .frac)
     {ks : List Nat} (hks : ks ∈ f.keys) {j : Nat} (hj : j < f.nOut ks) (env : Nat → K)
     (hall : ∀ a ∈ f.allowed ks, a.divOK o env ∧ a.eval o env ≠ 0) :
     ((look f.unit ks).out j).eval o env = (f.specT ks j).eval o env := by
-  refine treeOK_sound ho.toRingLike env ?_ (Family.tree_elim h htm hks hj)
+  refine treeOK_sound ho.toRingLike env ?_ (Family.tree_elim h htm hw hks hj)
   intro a b hab
   simp only [Family.leafOK, hk, Bool.and_eq_true, Bool.or_eq_true] at hab
   rcases hab.1.1 with h1 | h1
@@ -236,12 +266,12 @@ theorem Family.tree_frac_sound {K : Type} [Field K] [CharZero K] {o : Ops K} (ho
       (E.divOK_of_allowed ho _ hab.2 env hall)
 
 theorem Family.tree_fracMod_sound {K : Type} [Field K] [CharZero K] {o : Ops K} (ho : FieldLike o)
-    (h : f.ok look = true) (htm : f.treeMode = true) (hk : f.kind = .fracMod)
+    (h : f.ok look = true) (htm : f.treeMode = true) (hw : f.treeWalk = false) (hk : f.kind = .fracMod)
     {ks : List Nat} (hks : ks ∈ f.keys) {j : Nat} (hj : j < f.nOut ks) (env : Nat → K)
     (hh : ∀ p ∈ f.hyps ks, p.1.eval o env = p.2.eval o env)
     (hall : ∀ a ∈ f.allowed ks, a.divOK o env ∧ a.eval o env ≠ 0) :
     ((look f.unit ks).out j).eval o env = (f.specT ks j).eval o env := by
-  refine treeOK_sound ho.toRingLike env ?_ (Family.tree_elim h htm hks hj)
+  refine treeOK_sound ho.toRingLike env ?_ (Family.tree_elim h htm hw hks hj)
   intro a b hab
   simp only [Family.leafOK, hk, Bool.and_eq_true] at hab
   exact fracEqMod_sound ho hab.1.1 env hh (E.divOK_of_allowed ho _ hab.1.2 env hall)
